@@ -37,7 +37,7 @@ ATOL = 1e-12
 PRIOR_LAMBDA, PRIOR_WEIGHT = 1.0, 0.1
 INVARIANTS = ['CondOrder', 'BalancedAnyReps', 'SingleObsStructure', 'SingleObsCvIsNaN', 'CrossFoldBalanced',
               'PoissonCoefficients', 'NaNChannelIsDeleted', 'NaNIffNoPair', 'PairsAdmissible',
-              'WeightingIrrelevantWhenComplete', 'ReverseInvariant']
+              'WeightingIrrelevantWhenComplete', 'ReverseInvariant', 'NoDescIsSingle']
 ALL_METHODS = ('euclidean', 'correlation', 'mahalanobis', 'crossnobis', 'poisson', 'poisson_cv')
 
 
@@ -116,18 +116,21 @@ def _set(xs):
 
 def cfg(*, nobs, nch, nlab, nfold=2, vals=(0, 1, 2), datasrc='cat', dataids=(1,), methods=ALL_METHODS,
         weightings=('number', 'equal'), precids=(0, 1), foldmodes=('none', 'given'), nanmode='none',
-        design='any', emitmod=1, spec=None, invariants=True):
+        design='any', nodescs=(False,), idxkinds=('none',), priors=(False,), emitmod=1, spec=None, invariants=True):
     lines = ['CONSTANTS', f'  NObs = {nobs}', f'  NCh = {nch}', f'  NLab = {nlab}', f'  NFold = {nfold}',
              f'  Vals = {_set(vals)}', f'  DataSrc = "{datasrc}"', '  DataCat <- DataCatDef',
              f'  DataIds = {_set(dataids)}', f'  Methods = {_set(methods)}', f'  Weightings = {_set(weightings)}',
              '  PrecCat <- PrecCatDef', f'  PrecIds = {_set(precids)}', f'  FoldModes = {_set(foldmodes)}',
-             f'  NanMode = "{nanmode}"', f'  Design = "{design}"', f'  EmitMod = {emitmod}']
+             f'  NanMode = "{nanmode}"', f'  Design = "{design}"',
+             '  NoDescs = {' + ', '.join('TRUE' if b else 'FALSE' for b in nodescs) + '}',
+             f'  IdxKinds = {_set(idxkinds)}',
+             '  Priors = {' + ', '.join('TRUE' if b else 'FALSE' for b in priors) + '}', f'  EmitMod = {emitmod}']
     if spec:
         lines.append(f'SPECIFICATION {spec}')
         lines += [f'INVARIANT {i}' for i in INVARIANTS]
     else:
         lines += ['INIT Init', 'NEXT Next']
-        lines += [f'INVARIANT {i}' for i in INVARIANTS] + ['INVARIANT Emit']
+        lines += [f'INVARIANT {i}' for i in INVARIANTS] + ['INVARIANT Emit', 'PROPERTY DatasetFrame']
     lines.append('CHECK_DEADLOCK FALSE')
     return '\n'.join(lines) + '\n'
 
@@ -253,12 +256,22 @@ def measurements(rec, fl):
     return _layout(X.astype(fl['dtype']), fl['layout'])
 
 
+def index_values(kind, n):
+    """an obs descriptor NAMED 'index' the dataset already carries: unique but permuted values, or repeated
+    values (a within-run trial counter, two merged sessions)"""
+    if kind == 'perm':
+        return [(3 * o + 1) % n if n % 3 else n - 1 - o for o in range(n)]
+    return [o % ((n + 1) // 2) for o in range(n)]
+
+
 def make_dataset(rec, fl, *, use_desc=True):
     M = measurements(rec, fl)
-    lab = [LABEL_MAPS[fl['lab']](k) for k in rec['lab']]
+    lab = [LABEL_MAPS[fl['lab']](k) for k in rec.get('dlab', rec['lab'])]
     od = {}
-    if use_desc:
-        od['cond'] = lab if fl['cont'] == 'list' else np.array(lab)
+    od['cond'] = lab if fl['cont'] == 'list' else np.array(lab)
+    if rec.get('idx', 'none') != 'none':
+        iv = index_values(rec['idx'], len(lab))
+        od['index'] = iv if fl['cont'] == 'list' else np.array(iv)
     if rec['usefold']:
         f = [FOLD_MAPS[fl['fold']](k) for k in rec['fold']]
         od['fold'] = f if fl['cont'] == 'list' else np.array(f)
@@ -276,6 +289,19 @@ def noise_of(rec, fl):
 # ------------------------------------------------------------------------------------------------
 # classification of a deviation (by class, never by value)
 # ------------------------------------------------------------------------------------------------
+def dataset_fingerprint(ds):
+    """everything a call could change on the caller's dataset object"""
+    return (ds.measurements.dtype.str, ds.measurements.shape, np.ascontiguousarray(ds.measurements).tobytes(),
+            tuple((k, repr(np.asarray(v).tolist())) for k, v in ds.obs_descriptors.items()),
+            tuple((k, repr(np.asarray(v).tolist())) for k, v in ds.channel_descriptors.items()),
+            repr(sorted(ds.descriptors.items())))
+
+
+def fingerprint_diff(a, b):
+    names = ('measurements dtype', 'shape', 'measurements', 'obs_descriptors', 'channel_descriptors', 'descriptors')
+    return [n for n, x, y in zip(names, a, b) if x != y]
+
+
 def design_class(rec):
     lab, fold = rec['lab'], rec['fold']
     nch = len(rec['x'][0])
@@ -295,6 +321,7 @@ def design_class(rec):
 
 
 POISON = 'c/empty-self-slot/other-entries-nan'
+FRAME_KEY = 'frame/cv-method-without-cv_descriptor/adds-index-to-callers-dataset'
 
 
 def defect_class(rec, dc):
@@ -323,7 +350,8 @@ def _same(got, exp):
 
 
 def _case(rec, fl, **kw):
-    c = {k: rec[k] for k in ('lab', 'fold', 'usefold', 'x', 'valid', 'm', 'w', 'prec')}
+    c = {k: rec[k] for k in ('dlab', 'nodesc', 'idx', 'prior', 'lab', 'fold', 'usefold', 'x', 'valid', 'm', 'w', 'prec')
+         if k in rec}
     c['flavour'] = fl
     c.update(kw)
     return c
@@ -340,12 +368,31 @@ def check_record(rec, i):
     conds, exp, selfv, cross = expected_rdm(rec)
     known = defect_class(rec, dc)
     m, w = rec['m'], rec['w']
-    use_desc = not (dc['single'] and i % 3 == 2)          # descriptor=None: every observation its own condition
+    # descriptor=None (every observation its own condition): where the specification says so, and - as before -
+    # for every third design that has one observation per condition anyway
+    use_desc = not (rec.get('nodesc', False) or (dc['single'] and i % 3 == 2))
     ds, lab = make_dataset(rec, fl, use_desc=use_desc)
     noise = noise_of(rec, fl)
     kw = dict(method=m, descriptor='cond' if use_desc else None, noise=noise, weighting=w,
               cv_descriptor='fold' if rec['usefold'] else None)
     n = 1
+    idx_kind = rec.get('idx', 'none')
+    cv_default = dc['cv'] and not rec['usefold']          # the wrapper falls back to an 'index' obs descriptor
+    if rec.get('prior', False):
+        # two-step session on the SAME dataset object: a cross-validated call with the condition descriptor and
+        # without a fold descriptor comes first
+        n += 1
+        fp0 = dataset_fingerprint(ds)
+        try:
+            calc_rdm_unbalanced(ds, method='crossnobis', descriptor='cond')
+        except Exception as e:  # noqa: BLE001
+            out.append((f'frame/prior-call/raises/{type(e).__name__}', repr(e), _case(rec, fl)))
+        d = fingerprint_diff(fp0, dataset_fingerprint(ds))
+        if d:
+            out.append((FRAME_KEY, 'calc_rdm_unbalanced (cross-validated method, no cv_descriptor) changed the '
+                        f'dataset object of the caller: {d}; obs descriptors now {list(ds.obs_descriptors)}',
+                        _case(rec, fl, changed=d, obs_descriptors=list(ds.obs_descriptors))))
+    fp_before = dataset_fingerprint(ds)
     cls = f'{m}/{w}/' + ('cv' if dc['cv'] else 'nocv') + '/' + ('complete' if dc['complete'] else 'nan')
     got = None
     try:
@@ -353,19 +400,29 @@ def check_record(rec, i):
         got = np.asarray(r.dissimilarities, dtype=float)
     except Exception as e:  # noqa: BLE001
         out.append((known or f'a/raises/{type(e).__name__}/{cls}', f'calc_rdm_unbalanced raises {e!r}', _case(rec, fl)))
+    d = fingerprint_diff(fp_before, dataset_fingerprint(ds))
+    if d:
+        out.append((FRAME_KEY if (cv_default and use_desc) else 'frame/modifies-callers-dataset',
+                    f'calc_rdm_unbalanced changed the dataset object of the caller: {d}; obs descriptors now '
+                    f'{list(ds.obs_descriptors)}', _case(rec, fl, changed=d, obs_descriptors=list(ds.obs_descriptors))))
+    # a cross-validated method without fold descriptor takes an EXISTING obs descriptor named 'index' as folds: with
+    # repeated values more than the self pairs are excluded (own class; unique values are harmless)
+    if cv_default and use_desc and idx_kind == 'rep' and known is None:
+        known = 'a/cv-without-cv_descriptor/existing-index-descriptor-used-as-folds'
     ok_main = False
     if got is not None:
         want_labels = [LABEL_MAPS[fl['lab']](k) for k in conds] if use_desc else list(range(len(rec['lab'])))
         dn = 'cond' if use_desc else 'index'
         got_labels = list(np.asarray(r.pattern_descriptors.get(dn, [])).tolist())
         if got_labels != want_labels:
-            out.append((f'a/labels/{"descriptor" if use_desc else "no-descriptor"}',
+            out.append((f'a/labels/{"descriptor" if use_desc else "no-descriptor"}' + ('' if idx_kind == 'none' else f'/index={idx_kind}'),
                         'conditions are not labelled in order of first appearance',
                         _case(rec, fl, got_labels=got_labels, expected_labels=want_labels)))
         if got.shape != (1, len(exp)):
             out.append((f'a/shape/{cls}', f'dissimilarities have shape {got.shape}', _case(rec, fl)))
         elif not _same(got[0], exp):
-            out.append((known or f'a/value/{cls}', 'calc_rdm_unbalanced differs from the average over admissible pairs',
+            out.append((known or f'a/value/{cls}' + ('' if use_desc else '/no-descriptor')
+                        + ('' if idx_kind == 'none' else f'/index={idx_kind}'), 'calc_rdm_unbalanced differs from the average over admissible pairs',
                         _case(rec, fl, got=got[0], expected=exp)))
         else:
             ok_main = True
@@ -383,6 +440,16 @@ def check_record(rec, i):
         except Exception as e:  # noqa: BLE001
             out.append((f'd/raises/{type(e).__name__}', repr(e), _case(rec, base)))
     # clause b: the balanced estimator on the design classes where the definitions coincide
+    if dc['complete'] and not use_desc and not dc['cv'] and m in ('euclidean', 'correlation', 'mahalanobis', 'poisson'):
+        n += 1
+        try:
+            ds64, _ = make_dataset(rec, dict(fl, dtype='float64', layout='C'), use_desc=False)
+            gb = np.asarray(calc_rdm(ds64, method=m, descriptor=None, noise=noise).dissimilarities, dtype=float)[0]
+            if not _same(gb, exp) and (ok_main or known):
+                out.append((f'b/{m}/calc_rdm-differs/no-descriptor', 'calc_rdm(descriptor=None) differs from '
+                            'calc_rdm_unbalanced(descriptor=None)', _case(rec, fl, balanced=gb, expected=exp)))
+        except Exception as e:  # noqa: BLE001
+            out.append((f'b/{m}/calc_rdm-raises/{type(e).__name__}', repr(e), _case(rec, fl)))
     if dc['complete'] and use_desc:
         bal = None
         if not dc['cv'] and (dc['single'] or m in ('euclidean', 'mahalanobis')) and m in ('euclidean', 'correlation',
@@ -470,7 +537,7 @@ def replay_chunk(args):
     import warnings
     warnings.filterwarnings('ignore')
     base, lines = args
-    res = {'n_rec': 0, 'n_eval': 0, 'vio': [], 'classes': {}, 'nontriv': 0, 'flavours': {}}
+    res = {'n_rec': 0, 'n_eval': 0, 'vio': [], 'classes': {}, 'nontriv': 0, 'flavours': {}, 'sessions': {}}
     for j, line in enumerate(lines):
         rec = json.loads(line)
         try:
@@ -483,6 +550,8 @@ def replay_chunk(args):
         res['classes'][c] = res['classes'].get(c, 0) + 1
         f = f"{info['flavour']['dtype']}/{info['flavour']['layout']}"
         res['flavours'][f] = res['flavours'].get(f, 0) + 1
+        sk = f"nodesc={rec.get('nodesc', False)}/index={rec.get('idx', 'none')}/prior={rec.get('prior', False)}"
+        res['sessions'][sk] = res['sessions'].get(sk, 0) + 1
         dc = info['dc']
         res['nontriv'] += int((not dc['single']) or (not dc['complete']))
         res['vio'] += out
